@@ -241,6 +241,43 @@ def fields_of(hci, fields, where, allow_nested=True):
     return out
 
 
+def check_addr_after_type(fields, where):
+    """parse_address_preceded_by_type reads data[offset-1]: the field before it must be a
+    one-byte integer in the same object / array item (this is what the value generator and
+    the in-range contract rely on)."""
+    def one_byte(s):
+        return s[0] == 'Atom' and s[1][0] in ('UInt', 'Enum') and s[1][1] == 1
+
+    def walk(seq, w):
+        prev = None
+        for n, s in seq:
+            if s == ('Atom', ('AddrAfterType',)) and not (prev is not None and one_byte(prev)):
+                raise TranslationError(f'{w}.{n}: parse_address_preceded_by_type is not preceded by a one-byte field')
+            if s[0] == 'Nested':
+                for f in s[2]:
+                    pass
+                walk_fields([_lift_a(f) for f in s[2]], f'{w}.{n}')
+            prev = s
+
+    def walk_fields(fs, w):
+        flat = []
+        for f in fs:
+            if f[0] == 'One':
+                flat.append((f[1], f[2]))
+            else:
+                walk(f[1], w)
+                flat.append((None, ('Arr',)))
+        walk([(n, s) for n, s in flat if n is not None or True], w)
+
+    walk_fields(fields, where)
+
+
+def _lift_a(af):
+    if af[0] == 'One':
+        return ('One', af[1], ('Atom', af[2]))
+    return ('Arr', [(n, ('Atom', a)) for n, a in af[1]])
+
+
 def _owner(cls, name):
     for k in cls.__mro__:
         if name in k.__dict__:
@@ -298,6 +335,7 @@ def load():
             f0 = fields[0] if fields else None
             if not (f0 and f0[0] == 'One' and f0[1] == 'status' and f0[2] == ('Atom', ('Enum', 1, 'LE'))):
                 raise TranslationError(f'{rp.__name__}: first field is not a 1-byte status enum')
+        check_addr_after_type(fields, rp.__name__)
         info = ClassInfo(KIND_RETURN, len(rps), rp.__name__, rp, fields, status_first=status_first)
         rps[rp] = info
         return info
@@ -321,6 +359,7 @@ def load():
             else:
                 _check_overrides(hci, cls, kind)
                 info = ClassInfo(kind, code, name, cls, fields_of(hci, cls.fields, name))
+                check_addr_after_type(info.fields, name)
             if kind == KIND_COMMAND and issubclass(cls, hci.HCI_SyncCommand):
                 if _owner(cls, 'parse_return_parameters') is not hci.HCI_SyncCommand:
                     raise TranslationError(f'{name}: overrides parse_return_parameters')
@@ -376,8 +415,8 @@ def render(infos):
         'From Coq Require Import ZArith List String.',
         'From BV Require Import Model.SpecCodec Model.HciPacket.',
         'Import ListNotations.',
-        'Open Scope Z_scope.',
-        'Open Scope string_scope.',
+        'Local Open Scope Z_scope.',
+        'Local Open Scope string_scope.',
         '',
         '(* kind: 0 command, 1 event, 2 LE sub-event, 3 return parameters (code = index) *)',
         'Definition classes : list cls := [',
@@ -403,6 +442,8 @@ def render(infos):
             rows.append(f'  ({i.code}, ("{i.ret_name}", {"true" if rp[i.ret_name].status_first else "false"}))')
     lines.append(';\n'.join(rows))
     lines.append('].')
+    lines.append('')
+    lines.append('Definition registry : registry := mkreg classes custom_classes return_classes.')
     lines.append('')
     return '\n'.join(lines)
 
